@@ -244,8 +244,10 @@ func (s State) BlockInterval() time.Duration {
 
 // BlockReward returns the reward for mining a child block.
 func (s State) BlockReward() types.Currency {
-	r, underflow := s.Network.InitialCoinbase.SubWithUnderflow(types.Siacoins(uint32(s.childHeight())))
-	if underflow || r.Cmp(s.Network.MinimumCoinbase) < 0 {
+	// the reward decreases by one siacoin per block; the height must not be truncated to 32 bits
+	dec, overflow := types.Siacoins(1).Mul64WithOverflow(s.childHeight())
+	r, underflow := s.Network.InitialCoinbase.SubWithUnderflow(dec)
+	if overflow || underflow || r.Cmp(s.Network.MinimumCoinbase) < 0 {
 		return s.Network.MinimumCoinbase
 	}
 	return r
